@@ -109,7 +109,18 @@ def execute(case: dict) -> dict:
         lock = anyio.Lock(fast_acquire=case["fast"])
         holders: set = set()
         inprog: dict = {}
-        box.update(h=h, lock=lock, holders=holders, inprog=inprog)
+        box.update(h=h, lock=lock)
+
+        def snap() -> None:
+            try:
+                owner, owner_dead = lock.statistics().owner, False
+            except AssertionError:
+                owner, owner_dead = None, True
+
+            box.update(holders=set(holders), inprog=dict(inprog), locked=lock.locked(),
+                       owner=repr(owner), owner_dead=owner_dead)  # fmt: skip
+
+        h.abort_marks.append(snap)
 
         def owner_id():  # noqa: ANN202
             try:
@@ -282,21 +293,16 @@ def execute(case: dict) -> dict:
         run(main, config=case["cfg"], info=info)
     except Deadlock:
         box["h"].apply_freeze()
-        h, lock, inprog = box["h"], box["lock"], box["inprog"]
+        inprog = box["inprog"]
         live = [a.name for a in inprog if not a.cancel_issued]
-        try:
-            owner = lock.statistics().owner
-            owner_dead = False
-        except AssertionError:
-            owner, owner_dead = None, True
-
-        if live and (not lock.locked() or owner_dead):
+        locked, owner_dead = box["locked"], box["owner_dead"]
+        if live and (not locked or owner_dead):
             viol.append(("deadlock:live-waiter-on-free-lock",
-                         {"waiters": live, "locked": lock.locked(), "owner_dead": owner_dead}))  # fmt: skip
+                         {"waiters": live, "locked": locked, "owner_dead": owner_dead}))  # fmt: skip
         elif live:
             # somebody who is not ending holds the lock forever: never generated
             viol.append(("deadlock:holder-never-released",
-                         {"waiters": live, "owner": repr(owner)}))  # fmt: skip
+                         {"waiters": live, "owner": box["owner"]}))  # fmt: skip
         else:
             out["skipped_deadlock"] = True
     except BusyLoop:
